@@ -174,6 +174,7 @@ def pair_positions(ctx):
     component k of the old one; two same-typed components copied crosswise swap e.g. a core import's module and field name."""
     db, prov = ctx.db, ctx.prov
     n = 0
+    kc = {}
     for f in sorted(db.fns.values(), key=lambda x: x.id):
         if not (f.id.startswith("wac_types::package::") or f.id.startswith("wac_graph::encoding::")) or f.from_expansion:
             continue
@@ -188,7 +189,8 @@ def pair_positions(ctx):
             ctx.touch(f)
             swapped = [(i, j) for i in range(len(org)) for j in range(i + 1, len(org))
                        if org[i] is not None and org[j] is not None and org[i] == str(j) and org[j] == str(i) and tys[i] is not None and tys[i] == tys[j]]
-            ctx.ob("R08.8", "pair|%s@%s" % (f.id.split("::", 1)[1], s.span.rsplit(":", 2)[-2]), not swapped,
+            kc[f.id] = kc.get(f.id, 0) + 1
+            ctx.ob("R08.8", "pair|%s#%d" % (re.sub(r"\{closure#\d+\}", "{closure}", f.id.split("::", 1)[1]), kc[f.id]), not swapped,
                    "components are copied position by position" if not swapped else
                    "components %s of the rebuilt tuple are copied crosswise from the source tuple (same type `%s`): the two names change places" % (swapped, tys[swapped[0][0]]),
                    site="%s in %s" % (s.span, f.id))
